@@ -34,6 +34,8 @@ def insn_bytes(ins):
         return b"\xe9\x00\x00\x00\x00", 1
     if k == "jcc":
         return b"\x0f\x84\x00\x00\x00\x00", 2
+    if k == "loop":  # loop sym: a conditional branch with an 8-bit displacement
+        return b"\xe2\x00", 1
     if k == "call":
         return b"\xe8\x00\x00\x00\x00", 1
     if k == "lea":  # lea rax, [rip+sym]
@@ -96,11 +98,11 @@ def build(case):
                 for ins in d["insns"]:
                     bts, opoff = insn_bytes(ins)
                     if opoff is not None:
-                        exprs.append((len(data) + opoff, ins[1], ins[2] if len(ins) > 2 else 0))
+                        exprs.append((len(data) + opoff, ins[1], ins[2] if len(ins) > 2 else 0, len(bts) - opoff))
                     data += bts
                 blk = add_code_block(bi, data)
-                for off, sy, addend in exprs:
-                    pending_exprs.append((bi, blk, off, sy, addend, 4))
+                for off, sy, addend, width in exprs:
+                    pending_exprs.append((bi, blk, off, sy, addend, width))
             elif d.get("uninit"):
                 # a block in the uninitialized tail of the interval (as in .bss), possibly behind a gap no block covers
                 bi.size += d.get("gap_before", 0)
@@ -245,7 +247,7 @@ def build_cfg(B, flat):
                 cfg.add(gtirb.Edge(blk, t, None))      # an edge without a label is legal GTIRB: it is no fallthrough
             else:
                 add_edge(cfg, blk, t, ET.Branch, direct=True)
-        elif last[0] == "jcc":
+        elif last[0] in ("jcc", "loop"):
             t = target_of(last[1])
             add_edge(cfg, blk, t, ET.Branch, conditional=True, direct=True)
             if nxt is not None:
@@ -1183,6 +1185,8 @@ def decode_insns(dump, isa="X64"):
                     k = 1 if rel else 5
                 else:
                     k = 2
+            elif rel:
+                k = 2           # loop/loope/loopne: conditional branches that capstone does not put in the jump group
             else:
                 k = 0
             lst.append([ins.address, ins.size, k])
